@@ -466,24 +466,39 @@ def handle(ctx):
     init = P.func(RF.READER + '.__init__')
     names = {p.name for p in prims}
     n = 0
+    from ..facts import FactMap as _FM
+    fm_init = _FM(init.node)
     for a in ast.walk(init.node):
         if isinstance(a, ast.Assign) and U(a.targets[0]).endswith('.read_range'):
             n += 1
             tgt = U(a.value).split('.')[-1]
             blk = IO.block_of(a)
             local = [s for s in blk if isinstance(s, ast.Assign) and U(s.targets[0]) == 'self.local']
+            loc = U(local[0].value) if local else None
+            if loc is None:
+                # the value of self.local on every path reaching the binding (set earlier, or tested by the enclosing if)
+                vals = set()
+                for facts in (fm_init.paths_at(a) or []):
+                    v = None
+                    for x in facts:
+                        if x[0] == 'def' and x[1] == 'self.local' and x[2] in ('True', 'False'):
+                            v = x[2]
+                        elif x[0] in ('T', 'F') and x[1] == 'self.local':
+                            v = 'True' if x[0] == 'T' else 'False'
+                    vals.add(v)
+                if len(vals) == 1 and None not in vals:
+                    loc = vals.pop()
             if tgt not in names:
                 ctx.fail('C15.5', init, a, 'read_range is bound to %s, not to a range-read primitive' % U(a.value))
-            elif not local:
+            elif loc is None:
                 ctx.fail('C15.5', init, a, 'self.local is not set where read_range is bound')
             else:
                 is_blob = 'blob' in tgt
-                loc = U(local[0].value)
                 if (is_blob and loc == 'False') or (not is_blob and loc == 'True'):
                     ctx.ok('C15.5', init, a, 'read_range=%s with local=%s' % (tgt, loc))
                 else:
                     ctx.fail('C15.5', init, a, 'read_range=%s but self.local=%s' % (tgt, loc))
-    if n < 3:
+    if n < 2:
         raise AnalysisError('expected the read_range bindings of SgzReader.__init__, found %d' % n)
     # no other function rebinds it
     for f in P.functions.values():
